@@ -828,7 +828,7 @@ func (c20) Run(t *testing.T, tape *core.Tape, rcx *RunCtx) *core.Result {
 		res.Class, res.Detail = violation("termination"), fmt.Sprintf("parser still running after %d scheduler steps on a %d-byte stream (%s at %d): received %d entries and %d errors, entries closed=%v, errors closed=%v", sim.Steps, len(damaged), fault, faultAt, len(gotE), len(gotX), closedE, closedX)
 	case sim.End == core.EndDeadlock || !closedE || !closedX:
 		res.Class, res.Detail = violation("blocked-or-not-closed"), fmt.Sprintf("nothing can run any more but entries closed=%v, errors closed=%v (%s consumer, capacities %d/%d, %s at %d; received %d entries, %d errors)", closedE, closedX, sc.Consumer[:10], sc.CapEntries, sc.CapErrors, fault, faultAt, len(gotE), len(gotX))
-	case leak:
+	case leak && !rcx.Isolated:
 		res.Class, res.Detail = violation("goroutine-left-blocked"), "a goroutine of the parser is blocked forever although both channels were drained"
 	default:
 		// delivery: the entries that precede the damage, in order, first
